@@ -675,8 +675,15 @@ impl Compiler {
             catch_target: 0, // Will be patched
         });
 
+        // The handler sits on the VM's try stack while the body runs: loops, labels
+        // and try statements inside the body must record that depth, or their break /
+        // continue drop this handler (and, inside a try, that statement's own)
+        self.try_depth += 1;
+
         // Compile body
         self.compile_statement_impl(&for_of.body)?;
+
+        self.try_depth -= 1;
 
         // Pop iterator try handler (normal completion, no exception)
         self.builder.emit(Op::PopIterTry);
